@@ -208,6 +208,8 @@ def analyse_search_loops(ctx):
                 stmt=f'{kind}: match fields')
         result[kind] = dict(init=init, end=end, pos=pos, hay=hay, loop=loop, find=find)
     rep.require(set(result) == {'forward', 'reverse'}, 'find_kmers: need one forward and one reverse search loop')
+    all_yields = [n for n in ast.walk(fn) if isinstance(n, (ast.Yield, ast.YieldFrom))]
+    rep.add('K1', fi.site(), 'matches are produced only by the two analysed search loops (no other yield)', len(all_yields) == 2, expected='2 yields', found=len(all_yields), stmt='yield census')
     rep.add('K1', fi.site(), 'both strands are searched in the same haystack', len(hay_names) == 1, expected='one haystack', found=sorted(hay_names),
             stmt='haystack')
     # no statement between/after loops drops matches: the function has no return before the loops
@@ -620,6 +622,7 @@ def check_seq_to_bytes(ctx):
         rep.add('K10', fs.site(r) if r is not None else fs.site(), f'seq_to_bytes converts {mname} to its byte content', ok,
                 expected=want_conv.get(mname, 'a return'), found=u(r), stmt=f'seq_to_bytes[{mname}]')
     last = fs.node.body[-1]
+    rep.account_returns('K10', fs, [s_.body[-1] for s_ in fs.node.body if isinstance(s_, ast.If) and s_.body and isinstance(s_.body[-1], ast.Return)], 'byte form')
     rep.add('K10', fs.site(last), 'anything else is a TypeError', isinstance(last, ast.Raise) and raised_name(last) == 'TypeError', expected='raise TypeError',
             found=u(last)[:60], stmt='seq_to_bytes[else]')
 
